@@ -4,7 +4,7 @@ import json, os, re, sys
 VERIF = os.path.dirname(os.path.dirname(os.path.abspath(__file__)))
 res = json.load(open(os.path.join(VERIF, 'seeded', 'RESULTS.json')))
 rows = []
-for s in sorted(d for d in os.listdir(os.path.join(VERIF, 'seeded')) if re.match(r'C\d+-[a-d]$', d)):
+for s in sorted(d for d in os.listdir(os.path.join(VERIF, 'seeded')) if re.match(r'C\d+-[a-h]$', d)):
     meta = json.load(open(os.path.join(VERIF, 'seeded', s, 'meta.json')))
     what = (meta.get('summary') or '')
     what = re.sub(r'\s+', ' ', what)[:170]
